@@ -50,6 +50,11 @@ func (d *PathDecoder) decodeWriteOnlyAttributesForBody(body hcl.Body, bodySchema
 
 	for _, block := range content.Blocks {
 		if block.Type == "resource" {
+			if len(block.Labels) == 0 {
+				// incomplete block without the resource type label
+				continue
+			}
+
 			blockSchema, ok := bodySchema.Blocks[block.Type]
 			if !ok {
 				// unknown block (no schema)
